@@ -430,8 +430,8 @@ RecLoop(files, k, a) ==
       isLast == k = Len(files)
       opened == Append(a.evs, EvFs("c", "open", f.ck, 0, 0, 0))
   IN
-  IF a.prevEnd # -1 /\ a.prevEnd # f.ck THEN [a EXCEPT !.res = "err:InvalidData:gap"]
-  ELSE IF f.tail # "none" /\ ~a.cfg.tr THEN [a EXCEPT !.res = "err:tail", !.evs = opened]
+  IF a.prevEnd # -1 /\ a.prevEnd # f.ck THEN [a EXCEPT !.res = "gap"]
+  ELSE IF f.tail # "none" /\ ~a.cfg.tr THEN [a EXCEPT !.res = "tail", !.evs = opened]
   ELSE
   LET trunc == f.tail # "none"
       len == SumSz(f.recs)
@@ -441,13 +441,13 @@ RecLoop(files, k, a) ==
   IN
   IF f.recs = <<>>
   THEN \* (fix 6ee05d1) a chunk that holds no complete record
-       IF ~isLast THEN [a EXCEPT !.res = "err:InvalidData:empty_chunk", !.evs = opened \o tev, !.fs = fs1]
+       IF ~isLast THEN [a EXCEPT !.res = "empty_chunk", !.evs = opened \o tev, !.fs = fs1]
        ELSE [a EXCEPT !.fs = [fs1 EXCEPT ![j].linked = FALSE],
                       !.evs = opened \o tev \o <<EvFs("c", "unlink", f.ck, 0, 0, 0)>>]
   ELSE
   LET rp == Replay([ok |-> TRUE, st |-> a.st, idx |-> a.idx, cache |-> a.cache, csz |-> a.csz,
                     ev |-> a.lastLog, cfg |-> a.cfg, off |-> f.ck], f.ck, f.recs, 1)
-  IN IF ~rp.ok THEN [a EXCEPT !.res = "err:InvalidInput:bad_record", !.evs = opened \o tev, !.fs = fs1]
+  IN IF ~rp.ok THEN [a EXCEPT !.res = "bad_record", !.evs = opened \o tev, !.fs = fs1]
      ELSE RecLoop(files, k + 1,
             [a EXCEPT !.st = rp.st, !.idx = rp.idx, !.cache = rp.cache, !.csz = rp.csz, !.ev = a.lastLog,
                       !.closed = Append(@, [ck |-> f.ck, n |-> Len(f.recs), end |-> f.ck + len, st |-> rp.st, trunc |-> trunc]),
@@ -486,7 +486,8 @@ CallOpen(d, cfg) ==
       o == IF x.res = "ok" THEN Obs(x.s) ELSE [none |-> 0]
   IN [s |-> x.s, res |-> x.res,
       evs |-> <<EvB("open", cfg)>> \o x.evs \o
-              <<[e |-> "r", op |-> "open", res |-> x.res, rc |-> IF x.res = "ok" THEN "ok" ELSE "err", cls |-> x.res,
+              <<[e |-> "r", op |-> "open", res |-> IF x.res = "ok" THEN "ok" ELSE "err:" \o x.res,
+                 rc |-> IF x.res = "ok" THEN "ok" ELSE "err", cls |-> x.res,
                  seg |-> <<0, 0>>, obs |-> o, wl |-> WL(x.s.inst), dir |-> DirListing(x.s.fs), seq |-> 0]>>]
 
 \* clean drop (fix 6b81948): close the channel, the worker drains the queue and quits, then the lock goes
